@@ -107,6 +107,14 @@ def run(ctx):
         inputs.append(("gen%d" % i, pdbgen.text(lines)))
     inputs.append(("ss-bridge", pdbgen.text(pdbgen.ss_fragment())))
     inputs.append(("nterm-asp", pdbgen.text(pdbgen.nterm_asp_fragment())))
+    # an ensemble whose members differ strongly (the second chain 40 A away in the second model): the average pKa values are
+    # far from both members', and the reported folding profile must be linked to the reported charge curves all the same
+    for n, t in pdbgen.test_files(["1HPX"]):
+        ls = [l for l in pdbgen.lines_of(t) if pdbgen.is_atom(l) or l.startswith("TER")]
+        chains = sorted({l[21] for l in ls if pdbgen.is_atom(l)})
+        if len(chains) >= 2:
+            moved = [pdbgen.translate([l], 40.0, 0.0, 0.0)[0] if pdbgen.is_atom(l) and l[21] == chains[-1] else l for l in ls]
+            inputs.append((n + "-two-model-ensemble", "MODEL        1\n" + pdbgen.text(ls) + "ENDMDL\nMODEL        2\n" + pdbgen.text(moved) + "ENDMDL\n"))
     lbad, obad, rbad = [], [], []
     freqs, freals, preqs, preals = [], [], [], []
     for name, text in inputs:
@@ -133,6 +141,17 @@ def run(ctx):
                     lbad.append((name, reference, ph, d, 1.36 * (qf - qu)))
                 freqs.append("prof fold %d %d %s" % (1 if reference == "neutral" else 0, common.bits(ph), enc_groups(gs)))
                 freals.append(str(common.bits(conf.calculate_folding_energy(ph=ph, reference=reference))))
+            # the same linkage on what is *reported*: the folding profile and the charge profile of the molecule
+            for ph in [round(rnd.uniform(0.5, 13.5), 2) for _ in range(3)]:
+                g3 = [ph - 0.01, ph + 0.011, 0.01]
+                fp = mol.get_folding_profile(conformation='AVR', reference=reference, grid=g3)[0]
+                cp = mol.get_charge_profile(conformation='AVR', grid=g3)
+                if len(fp) == 3 and len(cp) == 3:
+                    d = (fp[2][1] - fp[0][1]) / (fp[2][0] - fp[0][0])
+                    link = 1.36 * (cp[1][2] - cp[1][1])
+                    ctx.count("reported-profile linkage points")
+                    if abs(d - link) > 2e-4 * max(1, ntit):
+                        lbad.append((name, reference + ", reported profiles", ph, d, link))
             prof, opt, r80, stab = mol.get_folding_profile(conformation='AVR', reference=reference, grid=grid)
             vals = [p[1] for p in prof]
             probs = []
